@@ -23,6 +23,7 @@ KINDS = {
     "std": (2, ["-m", "mae", "-x", "leadtime"]),
     "std5": (5, ["-m", "mae", "-x", "leadtime"]),      # more lines than entries in the style lists: each list repeats by its own length
     "stdgap": (2, ["-m", "mae", "-x", "leadtime"]),      # one lead time in the middle has no valid case (a gap in every line)
+    "std1": (2, ["-m", "mae", "-x", "location", "-l", "LOC0"]),        # a single point on the x axis
     "qq": (2, ["-m", "qq"]),
     "loc": (2, ["-m", "mae", "-x", "location"]),
     "map": (2, ["-m", "mae", "-type", "map"]),
@@ -330,6 +331,12 @@ def p_sp(fig, kind, info):
         return None
     if any(abs(y - 0) > 1e-9 for y in m[0].get_ydata()):
         return "perfect-score line at %s, expected 0 for mae" % list(m[0].get_ydata())
+    xs = [float(x) for x in m[0].get_xdata()]
+    pts = [float(x) for l in ax.get_lines() if l is not m[0] for x in l.get_xdata() if x == x]
+    if not (max(xs) > min(xs)):
+        return "the perfect-score line has no length (x from %r to %r): nothing is drawn" % (min(xs), max(xs))
+    if pts and (min(xs) > min(pts) + 1e-9 or max(xs) < max(pts) - 1e-9):
+        return "the perfect-score line spans x in [%g, %g] but scores are plotted over [%g, %g]" % (min(xs), max(xs), min(pts), max(pts))
 
 
 def p_aspect(fig, kind, info):
@@ -489,7 +496,7 @@ OPTIONS = {
     "gs": (["-gs", ":"], ["std", "loc", "pithist", "igncontrib", "against"], p_gs, "grid2"),
     "gw": (["-gw", "3"], ["std", "loc", "pithist", "igncontrib", "against"], p_gw, "grid3"),
     "nogrid": (["-nogrid"], ["std", "loc", "pithist", "igncontrib", "against"], p_nogrid, "nogrid"),
-    "sp": (["-sp"], ["std", "qq"], p_sp, "sp"),
+    "sp": (["-sp"], ["std", "std1", "qq"], p_sp, "sp"),
     "aspect": (["-aspect", "2"], ["std", "loc", "pithist"], p_aspect, None),
     "fs": (["-fs", "10,4"], ["std", "loc", "map", "pithist", "igncontrib", "against"], p_fs, None),
     "dpi": (["-dpi", "50"], ["std", "loc", "map", "pithist", "igncontrib", "against"], p_dpi, None),
@@ -570,7 +577,7 @@ def run_figure(ctx, kind, names, seed, tag):
     """Produce the figure with the given options; returns (fig, info) or (None, reason)."""
     F, base = KINDS[kind]
     ds, paths, locs = files_for(ctx, seed, F, gap=(kind == "stdgap"))
-    argv = list(base)
+    argv = [gen.fnum(locs[0][0]) if a == "LOC0" else a for a in base]
     legnames = ["Name %d" % i for i in range(F)]
     for n in names:
         frag = [("Name_%d" % 0 if False else x) for x in OPTIONS[n][0]]
@@ -678,7 +685,7 @@ def run_pairs(desc, ctx):
     i = 0
     for fam in FAMILIES:
         for a, b in itertools.combinations(fam, 2):
-            for kind in ("std", "std5", "stdgap", "qq", "pithist"):
+            for kind in ("std", "std1", "std5", "stdgap", "qq", "pithist"):
                 if kind not in OPTIONS[a][1] or kind not in OPTIONS[b][1] or not compatible([a, b]):
                     continue
                 i += 1
